@@ -281,6 +281,8 @@ def go_test(case_file, pkg='root', run='TestVerif', extra_overlay=None, race=Fal
         p = subprocess.run(cmd, cwd=tdir, env=env, capture_output=True, text=True, timeout=timeout)
         out = p.stdout + p.stderr
         ok = p.returncode == 0
+        if '[build failed]' in out:
+            out = 'REPLAY-BUILD-FAILED (the replay harness does not compile against this tree) ' + out
     except subprocess.TimeoutExpired:
         out, ok = 'timeout', False
     finally:
